@@ -18,6 +18,7 @@ func init() {
 		ruleL2(c, "C06.L2")
 		ruleL3(c, "C06.L3")
 		ruleL4(c, "C06.L4")
+		ruleT3(c, "C06.L6")
 	}
 }
 
